@@ -17,7 +17,7 @@ def run(ctx):
     th = ctx.tier == "thorough"
     aux = ["--aux", exes["mtbl_verify"]]
     ctx.fan(exes["h_c12"], "intact", 3000 if th else 300, aux, timeout=120)
-    ctx.fan(exes["h_c12"], "small", 8 * (48 if th else 4), aux, chunk=1, timeout=1800)   # 8 slices per file
+    ctx.fan(exes["h_c12"], "small", 8 * (48 if th else 4), aux, chunk=1, timeout=5400)   # 8 slices per file; the largest thorough slice (40000 faults) takes about 14 minutes alone on the idle machine
     ctx.fan(exes["h_c12"], "seeded", 800 if th else 32, aux, chunk=1, timeout=600)
     s = ctx.stats
     ctx.assumptions += ["fault classes are those CRC-32C is guaranteed to detect: 1-3 flipped bits and bursts <= 32 bits confined to one block's crc field + stored bytes (length prefixes are outside the statement)",
